@@ -262,6 +262,27 @@ func main() {
 					if tv, ok := info.Types[x.X]; ok && isShared(tv.Type) {
 						throughShared = true
 					}
+					// promoted field: the implicit path may run through an embedded shared value (e.g. renderState embeds *HTMLRenderer)
+					if sel := info.Selections[x]; sel != nil && len(sel.Index()) > 1 {
+						t := sel.Recv()
+						for _, ix := range sel.Index()[:len(sel.Index())-1] {
+							for {
+								if p, ok := t.Underlying().(*types.Pointer); ok {
+									t = p.Elem()
+									continue
+								}
+								break
+							}
+							st, ok := t.Underlying().(*types.Struct)
+							if !ok || ix >= st.NumFields() {
+								break
+							}
+							t = st.Field(ix).Type()
+							if isShared(t) {
+								throughShared = true
+							}
+						}
+					}
 					cur = x.X
 					first = false
 					continue
@@ -325,6 +346,15 @@ func main() {
 			case *ast.IncDecStmt:
 				check(s.X, "inc/dec")
 			case *ast.CallExpr:
+				// the address of a field reached through a shared value passed to a call (e.g. as a scratch buffer):
+				// the callee can store through it, so it counts as a store
+				for _, a := range s.Args {
+					if u, ok := a.(*ast.UnaryExpr); ok && u.Op == token.AND {
+						if _, isSel := u.X.(*ast.SelectorExpr); isSel {
+							check(u.X, "address passed to a call")
+						}
+					}
+				}
 				if id, ok := s.Fun.(*ast.Ident); ok && (id.Name == "copy" || id.Name == "delete" || id.Name == "clear") && len(s.Args) > 0 {
 					if _, isBuiltin := info.Uses[id].(*types.Builtin); isBuiltin {
 						arg := s.Args[0]
